@@ -52,7 +52,13 @@ def run(ck):
         # run: the flag is cleared on entry, i.e. a store of `false` dominates every load ("run() never returns Ok without
         # a stop request" issued after it has begun)
         resets = [c for c in atomics(rn, "stop", ("store",)) if len(c.args) > 1 and T.const_value(rn, c.args[1], 8) == 0]
-        ck.verdict(bool(resets) and all(any(rn.dominates(r_.bb, l.bb) for r_ in resets) for l in loads), "1", "T3-must-precede", rn, "stop-cleared-on-entry", "run() clears the stop flag before it first reads it", "run() reads the stop flag without having cleared it on entry: a stop request left over from an earlier run()/block_on() that ended otherwise (an error, a completed future) makes this run() return Ok at once, without any stop request of its own", site=rn.where(loads[0].bb))
+        # (the other sound design: every read of the flag, here and in block_on, consumes the request it observes —
+        # swap(false) — so that no request is honoured twice)
+        def consuming(b):
+            return all(l.name in ("swap", "fetch_and", "compare_exchange") and T.const_value(b, l.args[2 if l.name == "compare_exchange" else 1], 8) == 0 for l in atomics(b, "stop", ("load", "swap", "compare_exchange", "fetch_and")))
+        bo_ = ck.opt_body("EventLoop::block_on") if ck.has("block_on") else None
+        all_consuming = consuming(rn) and (bo_ is None or consuming(bo_))
+        ck.verdict(all_consuming or (bool(resets) and all(any(rn.dominates(r_.bb, l.bb) for r_ in resets) for l in loads)), "1", "T3-must-precede", rn, "stop-cleared-on-entry", "run() clears the stop flag before it first reads it", "run() reads the stop flag without having cleared it on entry: a stop request left over from an earlier run()/block_on() that ended otherwise (an error, a completed future) makes this run() return Ok at once, without any stop request of its own", site=rn.where(loads[0].bb))
         # the flag is read *after* the user code of an iteration: a stop() issued by a source callback, an idle or the
         # per-iteration closure must be seen before the next wait begins ("after finishing at most the iteration in
         # progress"). Every path from the end of a user-code site of the loop to the next dispatch passes a load.
